@@ -223,6 +223,26 @@ theorem deposit_eq (cfg : Config) (ctx : Ctx) (s : State) (dep : Deposit)
     (processDeposit cfg ctx s dep >>= fun r => Res.ok r.2) = toRes (Block.process_deposit cfg s dep) :=
   BlockM.deposit_eq cfg ctx s dep hpk hproof hebi hidx hbal
 
+/-- (f) `capella.ProcessWithdrawals` = the specification's `process_withdrawals` state update (pure core
+`Block.process_withdrawals_pure`, which the monadic `S` is compared with on every evaluation): the element-wise
+comparison interleaved with the balance decreases, the withdrawal index, and BOTH branches of the sweep-cursor update,
+for every registry size — in particular registries smaller than `MAX_VALIDATORS_PER_WITHDRAWALS_SWEEP`, where the
+cursor advances by the full sweep modulo the registry size. -/
+theorem withdrawalsApply_eq (cfg : Config) (s : State) (payload : ExecutionPayload) (expected : List Withdrawal)
+    (hexp : expectedWithdrawals cfg s = .ok expected)
+    (hidx : ∀ w ∈ expected, w.index + 1 < 2 ^ 64 ∧ w.validator_index + 1 < 2 ^ 64)
+    (hcur : s.next_withdrawal_validator_index + cfg.MAX_VALIDATORS_PER_WITHDRAWALS_SWEEP < 2 ^ 64)
+    (hmax : cfg.MAX_WITHDRAWALS_PER_PAYLOAD ≠ 0) :
+    Zrnt.Beacon.BlockM.processWithdrawals cfg s payload =
+      BlockM.optRes (Block.process_withdrawals_pure cfg s expected payload.withdrawals) :=
+  BlockM.withdrawalsApply_eq cfg s payload expected hexp hidx hcur hmax
+
+/-- the cursor rule itself, spelled out: fewer than `MAX_WITHDRAWALS_PER_PAYLOAD` withdrawals ⇒ the cursor moves by the
+whole sweep size modulo the registry size, whatever the registry size -/
+example : (Block.process_withdrawals_pure { (default : Config) with MAX_VALIDATORS_PER_WITHDRAWALS_SWEEP := 16, MAX_WITHDRAWALS_PER_PAYLOAD := 4 }
+    { (default : State) with validators := List.replicate 12 default, balances := List.replicate 12 0, next_withdrawal_validator_index := 5 } [] []).map
+      (·.next_withdrawal_validator_index) = some 9 := by decide
+
 /-- The proposer the context caches for the slot stays the specification's `get_beacon_proposer_index` while a block
 is processed: it depends only on slot, randao history, effective balances and current-epoch activity (`SameDuties`),
 none of which an operation changes. (The frame lemma for composing the operation theorems.) -/
